@@ -79,6 +79,19 @@ def run_case(case, acc, tier):
         acc.add_ctx(ctx, case)
         return
     acc.counters["accepted"] += 1
+    # history: building the graph of the same source again (same process) gives
+    # the same graph - nothing may be cached or mutated by the first pass
+    try:
+        from ..hier import dump as _dump
+        g1 = AST2SCFGTransformer(src).transform_to_SCFG()
+        g2 = AST2SCFGTransformer(src).transform_to_SCFG()
+        acc.counters["repeated_front_end_passes"] += 1
+        if _dump(g1, with_payload=True) != _dump(g2, with_payload=True):
+            ctx.violation("C08", "second_graph_of_same_source_differs", None,
+                          mech=progbase.mech_of(ctx))
+    except Exception as e:
+        k = exc_key(e)
+        ctx.violation("C08", f"repeated_front_end_raised:{k['type']}@{k['site']}", k)
     # census (the stamped nodes live in `fn`; liveness is computed on the
     # untouched copy and mapped through the stamps)
     ctx.hit("oracle.C08.census")
